@@ -1122,6 +1122,65 @@ def rule_r13(repo, run):
     run.floor(R, "generated functions with a by-value parameter", n, 1)
 
 
+def rule_r14(repo, run):
+    R = run.rule("C04.R14", "the abstract interface of a callback argument is built from the callback's own declaration: its "
+                            "dummy arguments from the callback's parameters, its result from the callback's result type, and "
+                            "every kind it uses is imported")
+    wf = repo.module("wrapf")
+    f = wf.func("Wrapf.dump_abstract_interfaces")
+    loops = [l for l in ast.walk(f) if isinstance(l, ast.For) and "f_abstract_interface" in wf.seg(l.iter)]
+    if len(loops) != 1:
+        raise AnalysisError("C04.R14: loop over fileinfo.f_abstract_interface not found")
+    lp = loops[0]
+    unpack = [a for a in lp.body if isinstance(a, ast.Assign) and isinstance(a.targets[0], ast.Tuple)
+              and "f_abstract_interface" in wf.seg(a.value)]
+    if not unpack:
+        raise AnalysisError("C04.R14: `node, fmt, arg = fileinfo.f_abstract_interface[key]` not found")
+    names = [e.id for e in unpack[0].targets[0].elts if isinstance(e, ast.Name)]
+    if len(names) != 3:
+        raise AnalysisError("C04.R14: unexpected shape of the f_abstract_interface entry")
+    fn_node, _, cb = names          # the function that has the callback, its format, the callback argument
+    # names bound to the enclosing function's declaration
+    outer = {fn_node}
+    for a in ast.walk(lp):
+        if isinstance(a, ast.Assign) and isinstance(a.targets[0], ast.Name) and isinstance(a.value, ast.Attribute) \
+                and pyflow.is_name(a.value.value, fn_node) and a.value.attr == "ast":
+            outer.add(a.targets[0].id)
+    apps = [c for c in ast.walk(lp) if isinstance(c, ast.Call) and isinstance(c.func, ast.Attribute) and c.func.attr == "append"
+            and pyflow.is_name(c.func.value, "arg_c_decl")]
+    if len(apps) < 2:
+        raise AnalysisError("C04.R14: declarations of the abstract interface (arg_c_decl.append) not found")
+    n = 0
+    for c in apps:
+        n += 1
+        exprs = [c.args[0]]
+        used = set(x.id for x in ast.walk(c.args[0]) if isinstance(x, ast.Name))
+        # one level of local aliases (rtypemap = arg.typemap)
+        for a in ast.walk(lp):
+            if isinstance(a, ast.Assign) and isinstance(a.targets[0], ast.Name) and a.targets[0].id in used:
+                exprs.append(a.value)
+        # what carries a *type*: <decl>.bind_c(...), <decl>.typemap, <decl>.gen_arg_as_*()
+        bad = sorted(set(x.value.id for e in exprs for x in ast.walk(e) if isinstance(x, ast.Attribute)
+                         and isinstance(x.value, ast.Name) and x.value.id in outer
+                         and (x.attr in ("bind_c", "typemap", "params") or x.attr.startswith("gen_arg"))))
+        run.check(R, "wrapf.Wrapf.dump_abstract_interfaces:decl[%s]" % " ".join(str(wf.seg(c.args[0])).split())[:40], not bad,
+                  "a declaration of the callback's interface is computed from %s, the function that *takes* the callback: the "
+                  "callback `double (*get)(int)` of `void f(...)` is declared with f's result type (type(C_PTR) for void)"
+                  % bad, wf.loc(c))
+        in_function_arm = any("subprogram == 'function'" in str(wf.seg(t)) and pol for t, pol in pyflow.dominating_tests(c, stop=lp))
+        if in_function_arm:
+            blk = c
+            while getattr(blk, "_parent", None) is not None and not isinstance(blk._parent, ast.If):
+                blk = blk._parent
+            sib = blk._parent.body if blk._parent is not None and any(x is blk for x in blk._parent.body) else blk._parent.orelse
+            imports = [x for st in sib for x in ast.walk(st) if isinstance(x, ast.Call) and (pyflow.call_name(x) or "").endswith("update_f_module")]
+            run.check(R, "wrapf.Wrapf.dump_abstract_interfaces:result-import[%s]" % " ".join(str(wf.seg(c.args[0])).split())[:30],
+                      bool(imports),
+                      "the result of the callback is declared but the kind it uses is not added to the interface's `use "
+                      "iso_c_binding, only :` list (the parameters' kinds are)", wf.loc(c))
+    run.floor(R, "declarations of callback interfaces", n, 2)
+
+
 def run(repo, run, tier):
     tables.check_model_assumptions(repo)
     table = tables.StatementTable(repo, "statements", "fc_statements")
@@ -1140,6 +1199,7 @@ def run(repo, run, tier):
     rule_r11(repo, run)
     rule_r12(repo, run)
     rule_r13(repo, run)
+    rule_r14(repo, run)
     run.assumptions.extend([
         "LP64 / ISO_C_BINDING interoperability table in sa/interop.py",
         "table semantics model (base/mixin/language selection) mirrors statements.update_stmt_tree; "
